@@ -63,6 +63,15 @@ Proof. intros dA dB eA eB evs Hev HR. repeat split;
         | apply touches_sound | apply intersects_sound | apply disjoint_sound | intros; apply equals_sound]; assumption. Qed.
 Print Assumptions C02_named_eq_pattern.
 
+(* converse predicate classes are configured as mirror images of each other *)
+Theorem C02_converse_classes_mirror : forall isA : bool,
+  RP_Within_requireExteriorCheck.m_requireExteriorCheck_1 isA = RP_Contains_requireExteriorCheck.m_requireExteriorCheck_1 (negb isA) /\
+  RP_CoveredBy_requireExteriorCheck.m_requireExteriorCheck_1 isA = RP_Covers_requireExteriorCheck.m_requireExteriorCheck_1 (negb isA) /\
+  RP_Covers_requireExteriorCheck.m_requireExteriorCheck_1 isA = RP_Contains_requireExteriorCheck.m_requireExteriorCheck_1 isA /\
+  RP_Contains_requireExteriorCheck.m_requireExteriorCheck_1 isA = negb (RP_Contains_requireCovers.m_requireCovers_1 isA).
+Proof. exact mirror_requireExteriorCheck. Qed.
+Print Assumptions C02_converse_classes_mirror.
+
 (* ... and the one place where the implementation leaves the DE-9IM definition: two empty geometries are "equal" *)
 Theorem C02_equals_both_empty_refuted :
   evaluate vt_equals (-1) (-1) None None [] = true /\ spec_equals (-1) (-1) (final []) = false /\ realizable (-1) (-1) None None (final []).
